@@ -26,11 +26,11 @@ type decision struct {
 type PathEnd int
 
 const (
-	EndOK PathEnd = iota
-	EndPruned         // assumption infeasible
-	EndViolation      // assertion failed / unexpected panic (replay needed)
-	EndInconclusive   // engine limitation, budget, solver unknown
-	EndBlocked        // blocked forever on channel/mutex
+	EndOK           PathEnd = iota
+	EndPruned               // assumption infeasible
+	EndViolation            // assertion failed / unexpected panic (replay needed)
+	EndInconclusive         // engine limitation, budget, solver unknown
+	EndBlocked              // blocked forever on channel/mutex
 )
 
 type Input struct {
